@@ -589,7 +589,9 @@ func (sc *simCase) genOp() *op {
 		sc.budget -= n
 		o.bufs = [][2]int{{sc.nextSrc, n}}
 		sc.nextSrc++
-		if qlen == 0 && n > 0 {
+		// (a script is supplied whether or not the queue is empty: behind a backlog the code must not issue a syscall,
+		// and if it wrongly does, the kernel accepts and the bytes overtake the queue)
+		if n > 0 && (qlen == 0 || r.Intn(4) != 0) {
 			o.ks = writeScript(r, n)
 		}
 	case kWritev:
@@ -617,7 +619,7 @@ func (sc *simCase) genOp() *op {
 			o.bufs = append(o.bufs, [2]int{sc.nextSrc, n})
 			sc.nextSrc++
 		}
-		if qlen == 0 && total > 0 {
+		if total > 0 && (qlen == 0 || r.Intn(4) != 0) {
 			o.ks = writeScript(r, total)
 		}
 	case kSendfile:
@@ -681,7 +683,7 @@ func (sc *simCase) genOp() *op {
 		if sc.env.dupDrops >= 2 && qlen == 0 {
 			o.dupfail = false // (a Dup failure behind a backlog is a clean error and stays in)
 		}
-		if qlen == 0 {
+		if qlen == 0 || r.Intn(4) != 0 {
 			unit := n
 			if unit > sc.env.maxsend {
 				unit = sc.env.maxsend
@@ -996,6 +998,49 @@ func maxInt(a, b int) int {
 	return b
 }
 
+// scenarioOps: the queue holds ONLY one item X (a file range after Sendfile hit EAGAIN: left == 0 with a non-empty
+// queue; or a buffer after a refused / partial Write), then a call Y (Write, Writev, Sendfile) arrives while the kernel
+// would accept everything: Y must be queued behind X, never sent ahead of it.  Then (usually) a flush drains the queue.
+func (sc *simCase) scenarioOps(k int) []*op {
+	r := sc.r
+	x, y := k/3, k%3
+	all := verifsys.Ans{Kind: verifsys.Took, N: 1 << 30}
+	var ops []*op
+	first := []verifsys.Ans{{Kind: verifsys.EAgain}}
+	if r.Intn(2) == 0 {
+		first = []verifsys.Ans{{Kind: verifsys.Took, N: 1 + r.Intn(900)}, {Kind: verifsys.EAgain}}
+	}
+	if x == 0 {
+		fid := 2 + r.Intn(3)
+		pos := r.Intn(fileSizes[fid] - 2000)
+		ops = append(ops, &op{kind: kSendfile, fid: fid, pos: pos, req: 1000 + r.Intn(1000), ks: first})
+	} else {
+		ops = append(ops, &op{kind: kWrite, bufs: [][2]int{{sc.nextSrc, 1000 + r.Intn(20000)}}, ks: first[:1]})
+		sc.nextSrc++
+	}
+	switch y {
+	case 0:
+		ops = append(ops, &op{kind: kWrite, bufs: [][2]int{{sc.nextSrc, 1 + r.Intn(5000)}}, ks: []verifsys.Ans{all}})
+		sc.nextSrc++
+	case 1:
+		o := &op{kind: kWritev, ks: []verifsys.Ans{all}}
+		for i, n := 0, 2+r.Intn(3); i < n; i++ {
+			o.bufs = append(o.bufs, [2]int{sc.nextSrc, r.Intn(3000)})
+			sc.nextSrc++
+		}
+		o.bufs[0][1]++
+		ops = append(ops, o)
+	default:
+		fid := 2 + r.Intn(3)
+		ops = append(ops, &op{kind: kSendfile, fid: fid, pos: r.Intn(fileSizes[fid] - 3000), req: 1 + r.Intn(3000), ks: []verifsys.Ans{all, all}})
+	}
+	if r.Intn(4) != 0 {
+		ops = append(ops, &op{kind: kFlush, ks: []verifsys.Ans{all, all, all, all, all, all}})
+	}
+	sc.env.rep.Stat(fmt.Sprintf("scenario.only-%s-queued-then-%s", []string{"file", "buffer"}[x], []string{"write", "writev", "sendfile"}[y]))
+	return ops
+}
+
 // fixedCase is a recorded case (replay file): connection parameters and the operation lines.
 type fixedCase struct {
 	typ string
@@ -1026,6 +1071,11 @@ func runSimCase(env *simEnv, idx int, fixed *fixedCase) {
 	}
 	if r.Intn(30) == 0 {
 		sc.budget = 24 << 20
+	}
+	scenario := -1
+	if fixed == nil && r.Intn(8) == 0 {
+		scenario = r.Intn(6) // (queue holds only X) x (next call Y with an accepting kernel)
+		sc.max = []int{0, 0, 65536, 1 << 20}[r.Intn(4)]
 	}
 	rep.Stat("conn." + typName(sc.typ))
 	rep.Stat("max." + strconv.Itoa(sc.max))
@@ -1078,6 +1128,14 @@ func runSimCase(env *simEnv, idx int, fixed *fixedCase) {
 			fmt.Printf("replay: %-60.60s -> closed=%v left=%d queued=%d received=%d accepted=%d\n", l, nbio.VerifClosed(sc.conn), nbio.VerifLeft(sc.conn), nbio.VerifQueued(sc.conn), len(sc.sock.Wire), sc.exp.total)
 		}
 		alive = false
+	}
+	if scenario >= 0 {
+		for _, o := range sc.scenarioOps(scenario) {
+			if !alive {
+				break
+			}
+			alive = sc.step(o)
+		}
 	}
 	for i := 0; i < nops && alive && fixed == nil; i++ {
 		alive = sc.step(sc.genOp())
